@@ -219,6 +219,28 @@ func runC20(c c20Case) *ev.Violation {
 	if rb := interfaces.ToConsensusMessage(&interfaces.ConsensusRawMessage{Content: rebuilt, Block: raw.Block}); rb == nil || rb.String() != parsed.String() {
 		return viol("parse-depends-on-producer", "bytes re-produced through BuilderFromRaw parse differently")
 	}
+	// the result depends on the bytes (and block) handed in at the time of the call, not on what the same raw message
+	// structure held earlier: re-use one structure for another PREPARE of the same encoded length, and attach a block afterwards
+	if c.Kind == "P" || c.Kind == "PP" {
+		other := e.f(0).CreatePrepareMessage(h, v+1, c.Hash).ToConsensusRawMessage()
+		first := e.f(0).CreatePrepareMessage(h, v, c.Hash).ToConsensusRawMessage()
+		reused := &interfaces.ConsensusRawMessage{Content: first.Content}
+		if m1 := interfaces.ToConsensusMessage(reused); m1 == nil || m1.View() != v {
+			return viol("parse-depends-on-history", "PREPARE(v) parsed wrongly")
+		}
+		reused.Content = other.Content
+		if m2 := interfaces.ToConsensusMessage(reused); m2 == nil || m2.View() != v+1 {
+			return viol("parse-depends-on-history", "re-using a raw message structure for other bytes of the same length returns the earlier parse result")
+		}
+		ppraw := e.f(0).CreatePreprepareMessage(h, v, nil, c.Hash).ToConsensusRawMessage()
+		r2 := &interfaces.ConsensusRawMessage{Content: ppraw.Content}
+		_ = interfaces.ToConsensusMessage(r2)
+		blk2 := &fakes.Block{H: h, ID: "late", Valid: true}
+		r2.Block = blk2
+		if m3, ok := interfaces.ToConsensusMessage(r2).(*interfaces.PreprepareMessage); !ok || m3.Block() != blk2 {
+			return viol("parse-depends-on-history", "a block attached to a raw message after a first parse is not seen by the next parse")
+		}
+	}
 	switch p := parsed.(type) {
 	case *interfaces.PreprepareMessage:
 		o := msg.(*interfaces.PreprepareMessage)
